@@ -399,6 +399,16 @@ def fold(node, env=None):
                 return fn(*args)
             except Exception as exc:  # noqa: BLE001
                 raise NotConstant(str(exc)) from exc
+        if isinstance(node.func, ast.Attribute) and node.func.attr in ("split", "join", "strip", "upper", "lower", "replace", "splitlines",
+                                                                        "lstrip", "rstrip", "keys", "values", "items") and not node.keywords:
+            base = fold(node.func.value, env)
+            if isinstance(base, str) or (isinstance(base, dict) and node.func.attr in ("keys", "values", "items")):
+                args = [fold(a, env) for a in node.args]
+                try:
+                    res = getattr(base, node.func.attr)(*args)
+                except Exception as exc:  # noqa: BLE001
+                    raise NotConstant(str(exc)) from exc
+                return list(res) if isinstance(base, dict) else res
     if isinstance(node, ast.JoinedStr):
         parts = []
         for v in node.values:
